@@ -122,7 +122,7 @@ def _d(x):
 
 
 # ---------------------------------------------------------------- workload
-HOWS = ("raw", "raw_other_obj", "ctor", "zi_instance", "native_zi", "native_fixed")
+HOWS = ("raw", "raw_other_obj", "ctor", "zi_instance", "raw_zi", "native_zi", "native_fixed")
 
 
 def _pick(r, zn):
@@ -154,13 +154,13 @@ def cases(M):
             k = 8 if thorough else 3
             for _ in range(k):
                 (pa, ua), (pb, ub) = r.choice(pr), r.choice(pr)
-                yield {"za": zn, "zb": zn, "ua": ua, "ub": ub, "ha": r.choice(HOWS[:4]), "hb": r.choice(HOWS), "ti": i,
+                yield {"za": zn, "zb": zn, "ua": ua, "ub": ub, "ha": r.choice(HOWS[:5]), "hb": r.choice(HOWS), "ti": i,
                        "pa": pa, "pb": pb}
             zb = r.choice(names)
             ub, j, d = _pick(r, zb)
             (pa, ua) = r.choice(pr)
             if gen.ok_instant(ub):
-                yield {"za": zn, "zb": zb, "ua": ua, "ub": ub, "ha": r.choice(HOWS[:4]), "hb": r.choice(HOWS), "ti": i,
+                yield {"za": zn, "zb": zb, "ua": ua, "ub": ub, "ha": r.choice(HOWS[:5]), "hb": r.choice(HOWS), "ti": i,
                        "pa": pa, "pb": f"o{j}:{d}"}
     for j in range(300000 if thorough else 30000):
         za = r.choice(names)
@@ -169,7 +169,7 @@ def cases(M):
         ub = r.choice((_pick(r, zb)[0], ua + r.randrange(-10**4, 10**4) * US + r.randrange(US)))
         if not (gen.ok_instant(ua) and gen.ok_instant(ub)):
             continue
-        yield {"za": za, "zb": zb, "ua": ua, "ub": ub, "ha": r.choice(HOWS[:4]), "hb": r.choice(HOWS), "ti": ia, "pa": str(da),
+        yield {"za": za, "zb": zb, "ua": ua, "ub": ub, "ha": r.choice(HOWS[:5]), "hb": r.choice(HOWS), "ti": ia, "pa": str(da),
                "pb": "r"}
     # the two ends of the representable range (years 1 and 9999), where the UTC instant itself is not representable
     for j in range(6000 if thorough else 600):
@@ -192,6 +192,10 @@ def _mk(M, zn, u, how):
         return P.DateTime(*f, tzinfo=P.tz.timezone.Timezone.__new__(P.tz.timezone.Timezone, zn), fold=fold)
     if how == "ctor":
         return P.datetime(*f, tz=zn, fold=fold)
+    if how == "raw_zi":
+        # a pendulum DateTime carrying the standard library's (cached, hence shared) ZoneInfo object - what
+        # DateTime(..., tzinfo=ZoneInfo(..)) and x.astimezone(ZoneInfo(..)) produce
+        return P.DateTime(*f, tzinfo=zoneinfo.ZoneInfo(zn), fold=fold)
     nat = dt.datetime(*f, tzinfo=zoneinfo.ZoneInfo(zn), fold=fold)
     if how == "zi_instance":
         return P.instance(nat)
@@ -234,8 +238,11 @@ def run(M, c):
                     a=_d(a), b=_d(b), got=td_us(r2), native=td_us(nat))
         r3 = a.diff(b, False)
         r4 = a.diff(b)
-        M.check("magnitude", _len_ok(r4, abs(ea)) and _len_ok(r3, ea), "C05/diff-native", "diff() with a native operand", a=_d(a),
-                b=_d(b), got=[td_us(r3), td_us(r4)], expected=ea)
+        # (a native operand may share the very tzinfo object of a DateTime built with tzinfo=ZoneInfo(..): the absolute form
+        #  then falls under the recorded wall-clock-ordering finding)
+        foldn = _len_ok(r3, ea) and not _len_ok(r4, abs(ea)) and _same_tz_fold(a, b)
+        M.check("magnitude", _len_ok(r4, abs(ea)) and _len_ok(r3, ea), "C05/magnitude:same-tzinfo-fold" if foldn else "C05/diff-native",
+                "diff() with a native operand", a=_d(a), b=_d(b), got=[td_us(r3), td_us(r4)], expected=ea)
         return
     r1 = b - a
     r2 = a - b
